@@ -8,4 +8,3 @@ rm -rf /tmp/evidence_keep && cp -r /verif/evidence /tmp/evidence_keep
 for p in "$@"; do ./check $p --tier quick 2>&1 | grep -E "VIOLATION|KNOWN|^C[0-9]+ " | sed "s/^/[$id] /"; done
 git -C /repo checkout -- . 
 rm -rf /verif/evidence && mv /tmp/evidence_keep /verif/evidence
-cd /verif && PYTHONPATH=/repo/src:/verif PYTHONHASHSEED=0 /venv/bin/python -m tools.gen >/dev/null
